@@ -364,7 +364,7 @@ func (c *fsCache) get(key string) ([]byte, error) {
 		return nil, err
 	}
 	if c.enc != nil {
-		data, err = c.enc.Decrypt(data)
+		data, err = c.enc.DecryptFor(key, data)
 		if err != nil {
 			return nil, err
 		}
@@ -404,7 +404,7 @@ func (c *fsCache) Set(key string, entry []byte) error {
 func (c *fsCache) set(key string, entry []byte) error {
 	if c.enc != nil {
 		var err error
-		entry, err = c.enc.Encrypt(entry)
+		entry, err = c.enc.EncryptFor(key, entry)
 		if err != nil {
 			return err
 		}
